@@ -30,7 +30,7 @@ from props import c04_legacy as LG
 from props import c04_oracle as O
 from run import Broken, Violation
 
-GEN = ["Iface"]
+GEN = ["Iface", "PyDataTypes"]
 RULE = ("tables: empty / rectangular / ragged / with empty rows, per table class; images: payload sizes 0..4096 x "
         "consumed prefix, per image class; paths: None, relative, absolute, //, ///, dot segments, trailing slash, "
         "unicode, archive!/member, existing files / symlinks, over-long names, NUL; RTF escape texts: valid \\uN? / "
